@@ -143,3 +143,16 @@ def MODELS_sum(ip, xs):
     for x in ip.iterate(xs):
         acc = ip.binop("Add", acc, x)
     return acc
+
+
+from contracts.c07 import engine_init_unit  # noqa: E402
+
+engine_init_unit("C19.engine_init", "C19")
+
+
+# the error log is built from the transition-info chain, which the engine creates WITHOUT thinning (C19.engine_init): with the flag off,
+# append() stores every transition of every chunk whatever the epoch's thinning (same harness as C08.epoch_chain_append)
+from contracts.c08 import CH, u_epoch_chain_append  # noqa: E402
+
+unit("C19.unthinned_chain_keeps_every_transition", "C19", [f"{CH}::ListEpochChain.__init__", f"{CH}::ListEpochChain.append", f"{CH}::ListChain.append"],
+     assumptions=["np.arange / boolean-mask selection / np.s_ modelled as index sets"])(u_epoch_chain_append)
